@@ -36,13 +36,41 @@ def wire_width(fcp, t):
     raise TypeError(t)
 
 
-def check_tiling(fcp, im, pieces):
+def expected_names(fcp, sname, unroll, prefix=""):
+    """The unique hierarchical leaf names the property promises, read off the schema: fields in ascending id, nested structs as
+    <field>::, unrolled arrays as <field>_<i> (every dimension)."""
+    from fcp.specs import type as T
+    out = []
+
+    def leaf(name, t, pre):
+        if type(t) is T.StructType:
+            out.extend(expected_names(fcp, t.name, unroll, pre + name + "::"))
+        elif type(t) is T.ArrayType and unroll:
+            for i in range(t.size):
+                leaf(f"{name}_{i}", t.underlying_type, pre)
+        else:
+            out.append(pre + name)
+    for f in sorted(fcp.get_struct(sname).unwrap().fields, key=lambda f: f.field_id):
+        leaf(f.name, f.type, prefix)
+    return out
+
+
+def check_tiling(fcp, im, pieces, unroll=None):
     """The property's own predicate on the implementation.  Returns (failure|None, known_enum_width)."""
     from fcp.specs import type as T
     cur = 0
     known = False
     names = set()
+    if unroll is not None:
+        try:
+            want_names = expected_names(fcp, im.type, unroll)
+        except Exception:
+            want_names = None
+        if want_names is not None and [p.name for p in pieces] != want_names:
+            return f"leaf names {[p.name for p in pieces][:12]} are not the hierarchical names {want_names[:12]}", known
     for p in pieces:
+        if p.name in names:
+            return f"two leaves are both called {p.name}", known
         if p.bitstart != cur:
             return f"piece {p.name} starts at {p.bitstart}, previous ended at {cur}", known
         try:
@@ -109,7 +137,7 @@ def run(chk):
             for im, rim, (r, e) in zip(hist, ref_hist, res):
                 if r is None:
                     continue
-                why, known = check_tiling(ref, rim, r)
+                why, known = check_tiling(ref, rim, r, unroll)
                 if known and chk.find_known("enum-width"):
                     chk.known_finding("enum-width", "an enum leaf is laid out on 2^ceil(log2(packed size)) bits instead of its packed size (encoding.py:_get_type_length)")
                 elif known:
